@@ -48,3 +48,48 @@ func (t *Transport) VerifLimits() (maxConns, maxIdle int, keepAlive, idleTimeout
 	defer t.connsMu.Unlock()
 	return t.MaxConnsPerHost, t.MaxIdleConnsPerHost, t.KeepAlive, t.IdleConnTimeout
 }
+
+// VerifClientSnapshot returns the routing state of the Client under its lock: the live
+// list (in list order), the heap (in array order), the sorted address set it was built
+// from, the cursor, the number of parked waiters, each configured target's alive flag
+// and latency estimate.
+func (c *Client) VerifClientSnapshot() (list, heap, last []string, pos, waiters int, alive map[string]bool, latency map[string]int64) {
+	alive = make(map[string]bool)
+	latency = make(map[string]int64)
+	c.lock.Lock()
+	defer c.lock.Unlock()
+	for _, t := range c.list {
+		list = append(list, t.address)
+	}
+	for _, t := range c.minHeap {
+		heap = append(heap, t.address)
+	}
+	last = append(last, c.last...)
+	pos = c.pos
+	waiters = len(c.pending)
+	for a, t := range c.targets {
+		alive[a] = t.alive
+		latency[a] = t.latency
+	}
+	return
+}
+
+// VerifSetLatency overwrites the latency estimate of a configured target.
+func (c *Client) VerifSetLatency(addr string, v int64) {
+	c.lock.Lock()
+	if t, ok := c.targets[addr]; ok {
+		t.latency = v
+	}
+	c.lock.Unlock()
+}
+
+// VerifTargetUpdate applies (*target).Update to a scratch target with the given
+// estimate and returns the new estimate and alive flag.
+func VerifTargetUpdate(alpha float64, old, sample int64, err error) (int64, bool) {
+	t := &target{latency: old, alive: true}
+	t.Update(alpha, sample, err)
+	return t.latency, t.alive
+}
+
+// VerifClientLatency is the "unreachable" latency value.
+const VerifClientLatency = clientLatency
